@@ -612,6 +612,48 @@ class Program:
                 self.by_name.setdefault(f.name, []).append(f)
         self._mod = None
         self._callers = None
+        self._infer_noreturn()
+
+    def _infer_noreturn(self):
+        """A function none of whose paths reaches its exit (every path ends in
+        exit()/err()/... or in a call of such a function) does not return: the
+        blocks that call it end the path in its callers as well."""
+        nr = set()
+        changed = True
+        while changed:
+            changed = False
+            for u in self.units.values():
+                for f in u.funcs.values():
+                    for b in f.blocks.values():
+                        if b.noreturn:
+                            continue
+                        for e in b.elems:
+                            x = sk(e)
+                            if x is not None and x.get("k") == "Call" and x.get("fn"):
+                                t = self.callee(x, f)
+                                if t is not None and id(t) in nr:
+                                    b.noreturn = True
+                                    changed = True
+                    if id(f) in nr:
+                        continue
+                    seen, st = set(), [f.entry]
+                    reach_exit = False
+                    while st:
+                        bid = st.pop()
+                        if bid in seen:
+                            continue
+                        seen.add(bid)
+                        if bid == f.exit:
+                            reach_exit = True
+                            break
+                        b = f.blocks[bid]
+                        if b.noreturn:
+                            continue
+                        st.extend(s_ for s_ in b.succs if s_ is not None)
+                    if not reach_exit:
+                        nr.add(id(f))
+                        changed = True
+        self.noreturn_funcs = nr
 
     # -- lookup
     def func(self, name, unit=None):
